@@ -78,6 +78,7 @@ func runHist(spec string, massive bool) string {
 				gtree.WithBranchFormatIntermedialNode(unhex(f[4]), unhex(f[5])),
 			}
 			opts = append(opts, mopt...)
+			opts = append(opts, encOpt(f, 7)...)
 			fail := optInt(f[6])
 			var vs []visitRec
 			i := 0
@@ -143,6 +144,7 @@ func runHist(spec string, massive bool) string {
 				gtree.WithBranchFormatIntermedialNode(unhex(f[3]), unhex(f[4])),
 			}
 			opts = append(opts, mopt...)
+			opts = append(opts, encOpt(f, 7)...)
 			fail := optInt(f[5])
 			var vs []visitRec
 			i := 0
